@@ -267,6 +267,7 @@ func checkC02(c *hx.Ctx) {
 	})
 	c02TwoVersions(c)
 	c.Floor("two_version_competitions", 100)
+	c.Floor("early_recover_recommitting_to_its_key_under_another_algorithm", 20)
 	c.Floor("sets_with_disagreeing_time_and_number_order", 50)
 	c.Floor("sets_with_unpublished_competitor", 20)
 	c.Floor("additional_operation_splits", 100)
@@ -331,6 +332,17 @@ func c02TwoVersions(c *hx.Ctx) {
 				e = mk(fmt.Sprintf("v0-delta-mismatch%d", k), ref.SHA256, SignedOpts{DeltaStatus: ref.DeltaMismatch})
 			}
 			ops = append(ops, Place(e, uint64(20+10*k+r.Intn(5)), uint64(r.Intn(4)), fmt.Sprintf("e%d", k), 0))
+		}
+		// a genuinely signed recover anchored under version 100 before the valid ones that commits again to the recovery key
+		// it reveals, spelled with the other hash algorithm: key re-use, never applicable, consumes nothing
+		if kind == "recover" && r.Chance(1, 2) {
+			e := u.MkSigned("v100-recommits-own-key-sha512", "recover", u.R[0], cm(u.R[0], ref.SHA512), cm(u.U[1], ref.SHA512), svc("own"), SignedOpts{DeltaCode: ref.SHA512})
+			if e.Parses {
+				c.Violation("C02 harness: key re-use under another algorithm is not modelled as inapplicable", nil)
+				return
+			}
+			ops = append(ops, Place(e, uint64(105+r.Intn(10)), uint64(r.Intn(4)), "own", 100))
+			c.Count("early_recover_recommitting_to_its_key_under_another_algorithm")
 		}
 		// later competitors anchored under version 100, using sha2-512 (allowed there) or sha2-256
 		nLate := 1 + r.Intn(2)
